@@ -92,16 +92,53 @@ func queryDecodesToSeparators(in string) bool {
 	return classFSer(model.FormParse(mu.Query))
 }
 
+// idemDeepCtx: contexts in which a short window completes a (nested) escape whose decoding changes how
+// the URL is re-read: a drive letter that only appears after decoding, a character the query serializer
+// and the URL parser escape differently ('), a nested escape next to it, a percent sign before the window.
+var idemDeepCtx = []vctx{
+	{"file:///C%7", "/u/r.txt#p"}, {"file:///", "%7C/u"}, {"file:///C%257", "/u"}, {"file:///%2543%7", "/"},
+	{"https://h/s?q=a'b&r=%257", "home"}, {"https://h/s?q='&r=", "%2541"}, {"https://h/s?'=%25", "1"},
+	{"http://h/a%2", "/b"}, {"http://h/%25", "1"}, {"http://u%4", ":p@h/"},
+}
+
 // VerifC17IdemComposed: every profile composed from the canonicalizer's own options, all strings.
 func VerifC17IdemComposed() {
 	p := composedProfile()
-	in := windowInput(vnd.Param("C17.KComposed", 2, 2))
+	var in string
+	if ci := vnd.Pick(len(webCtx) + len(idemDeepCtx)); ci < len(webCtx) {
+		in = webCtx[ci].pre + vnd.Str(vnd.Len(vnd.Param("C17.KComposed", 2, 2))) + webCtx[ci].suf
+	} else {
+		c := idemDeepCtx[ci-len(webCtx)]
+		in = c.pre + vnd.Str(vnd.Len(vnd.Param("C17.KComposed", 2, 2))) + c.suf
+	}
 	msg, ok := verifCheckIdempotent(p, in)
 	vnd.Cover("canonicalized", ok)
 	if msg != "" {
 		vnd.Known("form-serialize-unescaped", p.sortQuery != NoSort && !p.repeatedPercentDecoding && sortClass(p, in))
+		vnd.Known("repeated-decoding-plus", p.repeatedPercentDecoding && nestedEscapedPlus(in))
 		vnd.Fail(msg)
 	}
+}
+
+// nestedEscapedPlus: the class of the recorded finding repeated-decoding-plus: the text contains a '+'
+// escaped at depth two or more (%252B, %25252b, ...), which repeated decoding turns into a literal '+'
+// that neither the canonicalizer's re-encoding set nor the form serializer escapes.
+func nestedEscapedPlus(s string) bool {
+	for i := 0; i+5 <= len(s); i++ {
+		if s[i] != '%' {
+			continue
+		}
+		j := i + 1
+		n := 0
+		for j+2 <= len(s) && s[j] == '2' && s[j+1] == '5' {
+			j += 2
+			n++
+		}
+		if n >= 1 && j+2 <= len(s) && s[j] == '2' && (s[j+1] == 'B' || s[j+1] == 'b') {
+			return true
+		}
+	}
+	return false
 }
 
 // VerifC17IdemQuery: the query is where sort-query and repeated decoding interact: deeper window.
